@@ -24,6 +24,8 @@ RULE = (
     "body = guarded failure (Panic(1) / legacy fail flag / vm.assertTrue / assertFalse / assertEq), guard = conjunction (single "
     "JUMPI or short-circuit chain) of atoms: equalities, inequalities, masks, x*y / x/y / x%y (symbolic operands: refinement), "
     "x*c, x%c, keccak of words / of dynamic content, array length and elements, storage written by setUp, optional vm.assume; "
+    "every second contract also has a counted loop with a symbolic trip count (while-shaped, and do-while-shaped whose back edge is "
+    "the taken JUMPI side) failing only after exactly k iterations, run with a per-function --loop below / above k; "
     "half reachable (built around a witness), half contradictory (negated atom, empty interval, length outside the bounds, hash "
     "injectivity, arithmetic impossibility, assumption excluding the guard). Each contract is run by the real run_contract "
     "(yices / z3, storage layout solidity / generic); every test is one case, distinct by (guard shape, failure kind, solver, layout)."
@@ -152,6 +154,10 @@ def judge(ctx, jobs, batch):
             replay = {"contract": job["spec"], "test": chk.canon, "solver": solver, "layout": layout, "why": chk.why,
                       "kind": chk.kind, "verdict": verdict}
             flagged = _flagged(run, chk.canon)
+            if r is not None and (r.num_bounded_loops or 0) > 0:
+                flagged = flagged + [f"num_bounded_loops={r.num_bounded_loops}"]
+            if chk.why.startswith("loop:"):
+                ctx.count(f"loop:{chk.why}|{verdict}|{'flagged' if flagged else 'clean'}")
             if verdict == "MISSING":
                 ctx.violation(f"test-missing|{cls}|{chk.kind}", f"{gen.desc.name}.{chk.canon}: no TestResult returned "
                               f"(errors: {run.errors[:2]})", replay)
@@ -205,7 +211,8 @@ def make_jobs(ctx, specs, combos, sweep=40):
         for solver, cmd, layout in (combos(k)):
             gen = e2e.gen_contract(random.Random(seed), name=name, pool=kw.get("pool", ()), ntests=kw.get("ntests", 3),
                                    bytes_sizes=kw.get("bytes_sizes"), array_sizes=kw.get("array_sizes"),
-                                   panic_codes=kw.get("gen_panic_codes", (1,)), touch=kw.get("touch", False))
+                                   panic_codes=kw.get("gen_panic_codes", (1,)), touch=kw.get("touch", False),
+                                   loops=kw.get("loops", False))
             cfg = {}
             if kw.get("panic_error_codes") is not None:
                 cfg["panic_error_codes"] = kw["panic_error_codes"]
@@ -265,6 +272,8 @@ def correspond(ctx):
             kw["array_sizes"] = [0, 1, 3]
         if i % 4 == 1:
             kw["touch"] = True
+        if i % 2 == 0:
+            kw["loops"] = True
         if i % 6 == 5:
             kw["gen_panic_codes"] = (1, 0x11, 0x32)
             kw["panic_error_codes"] = ctx.rng.choice(["0x11", "0x01,0x32", "*"])
